@@ -127,6 +127,11 @@ impl C18 {
                 let rr = cli::run_repl(&format!("{};\n", expr), env, true, &rdir, &self.home);
                 let _ = std::fs::remove_dir_all(&rdir);
                 if !rr.timed_out {
+                    // strict: the read fails and says which variable
+                    if !rr.stdout.contains(name.as_str()) {
+                        o.fail("C18/repl-unset-variable-accepted", format!("`{};` typed into a strict ucg repl should fail naming {}\n{}\noutput:\n{}", expr, name, rendered, rr.stdout));
+                        return o;
+                    }
                     if rr.stdout.contains(SECRET) || rr.stderr.contains(SECRET) {
                         o.fail("C18/repl-secret-disclosed", format!("`{};` typed into ucg repl discloses the value of an unrelated environment variable\n{}\noutput:\n{}", expr, rendered, rr.stdout));
                         return o;
@@ -136,6 +141,39 @@ impl C18 {
                             o.fail("C18/repl-other-values-disclosed", format!("`{};` typed into ucg repl discloses the value of {}\n{}\noutput:\n{}", expr, k, rendered, rr.stdout));
                             return o;
                         }
+                    }
+                }
+            }
+        }
+        // the same reads under the `test` sub-command: strictness is the command line's to decide
+        if c.label == "read-unset" && o.key % 2 == 1 {
+            if let Some(expr) = c.src.strip_prefix("out json {v = ").and_then(|x| x.strip_suffix("};\n")) {
+                o.class("test-sub-command");
+                let tdir = crate::ucgrun::new_scratch_dir("c18test");
+                std::fs::write(tdir.join("unset_test.ucg"), format!("assert {{ok = {} == NULL, desc = \"an unset variable reads as NULL\"}};\n", expr)).expect("write");
+                let mut env = c.env.clone();
+                env.push(("UCG_SECRET".to_string(), SECRET.to_string()));
+                let mut args = vec![];
+                if !c.strict {
+                    args.push("--no-strict".to_string());
+                }
+                args.push("test".to_string());
+                args.push("unset_test.ucg".to_string());
+                let tr = cli::run_ucg(&cli::Cmd { args, cwd: &tdir, env, home: &self.home, timeout: std::time::Duration::from_secs(60), stdin: None });
+                let _ = std::fs::remove_dir_all(&tdir);
+                if !tr.timed_out {
+                    let shown = format!("{}\nucg {}test unset_test.ucg -> {}\nstdout: {}\nstderr: {}", rendered, if c.strict { "" } else { "--no-strict " }, tr.describe(), tr.stdout, tr.stderr);
+                    if tr.stdout.contains(SECRET) || tr.stderr.contains(SECRET) {
+                        o.fail("C18/secret-disclosed", format!("`ucg test` discloses the value of an unrelated environment variable\n{}", shown));
+                        return o;
+                    }
+                    if c.strict && tr.code == Some(0) {
+                        o.fail("C18/unset-variable-accepted", format!("strict `ucg test` passes a file that reads an unset variable\n{}", shown));
+                        return o;
+                    }
+                    if !c.strict && tr.code != Some(0) {
+                        o.fail("C18/no-strict-not-null", format!("with --no-strict an unset variable must read as NULL under `ucg test` too\n{}", shown));
+                        return o;
                     }
                 }
             }
